@@ -1,0 +1,63 @@
+//go:build verif
+// +build verif
+
+package leveldb
+
+import (
+	"sync/atomic"
+
+	"github.com/syndtr/goleveldb/leveldb/comparer"
+	"github.com/syndtr/goleveldb/leveldb/iterator"
+	"github.com/syndtr/goleveldb/leveldb/memdb"
+	"github.com/syndtr/goleveldb/leveldb/opt"
+)
+
+// Verification exports for the byte-level iterator correspondence and the error/release walks of
+// property C02 (build tag verif only; add-only).
+
+// VerifTxnDump returns a copy of the internal arrays of a transaction's private write buffer and the
+// transaction's private tables (number, size, recorded bounds), in the order newRawIterator consults them.
+func VerifTxnDump(tr *Transaction) (mem *memdb.VerifDump, tables []VerifTable, ok bool) {
+	tr.lk.RLock()
+	defer tr.lk.RUnlock()
+	if tr.closed {
+		return nil, nil, false
+	}
+	d := tr.mem.DB.VerifDump()
+	mem = &d
+	for _, t := range tr.tables {
+		tables = append(tables, VerifTable{
+			Level: -1,
+			Num:   t.fd.Num,
+			Size:  t.size,
+			Imin:  append([]byte{}, t.imin...),
+			Imax:  append([]byte{}, t.imax...),
+		})
+	}
+	return mem, tables, true
+}
+
+// VerifIterStrict is the strict flag an iterator created with these read options runs with
+// (opt.GetStrict(o, ro, opt.StrictReader): dbIter, the merged iterator and the table iterators).
+func VerifIterStrict(db *DB, ro *opt.ReadOptions) bool {
+	return opt.GetStrict(db.s.o.Options, ro, opt.StrictReader)
+}
+
+// VerifNewDBIter builds a dbIter (db_iter.go) over an arbitrary raw iterator on internal keys, the way
+// DB.newIterator does (sampling disabled; a private DB value only carries the alive-iterator counter).
+// Used to walk dbIter over raw iterators that inject errors.
+func VerifNewDBIter(raw iterator.Iterator, ucmp comparer.Comparer, seq uint64, strict bool) iterator.Iterator {
+	db := &DB{}
+	it := &dbIter{
+		db:              db,
+		icmp:            &iComparer{ucmp: ucmp},
+		iter:            raw,
+		seq:             seq,
+		strict:          strict,
+		disableSampling: true,
+		key:             make([]byte, 0),
+		value:           make([]byte, 0),
+	}
+	atomic.AddInt32(&db.aliveIters, 1)
+	return it
+}
